@@ -197,6 +197,55 @@ func c19Flat(c *core.Ctx, p string, limit int, neg, fwd bool, kind string, pinne
 	if sig == "" && err != nil {
 		sig = "defrag:spurious-err"
 	}
+	if sig == "" && strings.Contains(p, ".") && strings.Contains(p, "x") && !pinned && c.Idx%3 == 0 {
+		// the stack is compact now: shrink it, refill it with a fresh gap pattern (same or smaller length) and defragment
+		// again - the second call must not rely on anything remembered from the first
+		keep := s.Len() / 2
+		for s.Len() > keep {
+			s.Pop()
+		}
+		orig2 := append([]any{}, contentOf(s)...)
+		for i := 0; i < len(p)-keep-1 && i < 6; i++ {
+			if i%2 == 0 {
+				s.Push(nil)
+				orig2 = append(orig2, nil)
+			} else {
+				v := next()
+				s.Push(v)
+				orig2 = append(orig2, v)
+			}
+		}
+		last := next()
+		s.Push(last)
+		orig2 = append(orig2, last)
+		if limit == 0 {
+			s.Defrag()
+		} else {
+			s.Defrag(limit)
+		}
+		// reference: a fresh stack holding the same content, defragmented once (so the known truncation behaviour, where it
+		// applies, is the same on both sides and only a dependence on history can make them differ)
+		fresh := NewStack(kind, 0)
+		for _, v := range orig2 {
+			fresh.Push(v)
+		}
+		if neg {
+			fresh.SetNegativeIndices(true)
+		}
+		if fwd {
+			fresh.SetForwardIndices(true)
+		}
+		if limit == 0 {
+			fresh.Defrag()
+		} else {
+			fresh.Defrag(limit)
+		}
+		if got, want := showList(contentOf(s)), showList(contentOf(fresh)); got != want || (s.Err() == nil) != (fresh.Err() == nil) {
+			c.Violatef("defrag:history-dependent", desc, "pattern %q: after Defrag, shrink and refill to %s a second Defrag gives %s, a fresh stack with the same content gives %s", p, showList(orig2), got, want)
+			return
+		}
+		c.Count("second-defrag-after-refill")
+	}
 	if sig != "" {
 		if pinned {
 			c19PinOnce.Do(c19LoadPins)
@@ -263,7 +312,15 @@ func c19GenNode(r *core.Rng, depth int, next func() any) *c19Node {
 			} else if r.Chance(1, 4) {
 				v = AStack(kid.s)
 			}
-			n.s.Push(v)
+			switch r.Intn(4) {
+			case 0: // enters through Insert at the end
+				n.s.Insert(v, n.s.Len())
+			case 1: // enters through Replace of a placeholder
+				n.s.Push("placeholder")
+				n.s.Replace(v, n.s.Len()-1)
+			default:
+				n.s.Push(v)
+			}
 			n.orig = append(n.orig, v)
 			continue
 		}
